@@ -16,6 +16,9 @@ func init() {
 			readerDiscardRules(c, "C05")
 			readerReadRules(c, "C05")
 			protocolErrorKindRules(c, "C05")
+			// a violation in a later frame must surface from the helpers as well
+			helperReadDataRules(c, "C05")
+			helperReadMessageRules(c, "C05")
 		},
 	})
 }
